@@ -88,6 +88,7 @@ const canaryText = "CANARY-CONTENT-FROM-THE-REAL-FILE-SYSTEM"
 
 func suiteC11(cfg Config, res *Result) {
 	defer c11BrokenReads(cfg, res)
+	defer c11ComputedNames(cfg, res)
 	defer c11Layouts(cfg, res)
 	res.Rule = "pages extending layouts in other directories (one or two levels) that include / ssi / import their own neighbours by relative names while same-named files sit next to the layouts: every name resolves against the template it is written in; a first loader whose reader fails part way: the reference fails and the next loader's file is never used; virtual file trees (nested directories; relative, rooted and ..-names; 1-3 recording loaders with overlapping contents) x acyclic reference graphs via include (static / lazy, with / only / if_exists), import, ssi (plain / parsed); a canary file exists on the real file system under a name the tree references but no loader serves; oracle: every Get is for a name some involved template references (resolved against the referrer), loaders are asked in order and the first that has the name wins, a missing name is an error (nothing with if_exists), the canary's content never appears, and the output equals the reference expansion; also compared with the Lean model incl. the Get log; non-trivial = tree with >= 2 loaders or a relative/.. name; distinct by tree"
 	os.WriteFile(canaryPath, []byte(canaryText), 0o644)
@@ -305,7 +306,14 @@ func suiteC11(cfg Config, res *Result) {
 		ct := CtxTerm{Names: []string{"zz"}, Vals: []VT{vInt(1)}}
 		for li, ln := range lazyList {
 			ct.Names = append(ct.Names, fmt.Sprintf("lz%d", li))
-			ct.Vals = append(ct.Vals, vStr(ln))
+			switch (li + len(entry)) % 6 {
+			case 0:
+				ct.Vals = append(ct.Vals, vPtr(vStr(ln)))
+			case 1:
+				ct.Vals = append(ct.Vals, vBoxed(vStr(ln), li%2 == 0))
+			default:
+				ct.Vals = append(ct.Vals, vStr(ln))
+			}
 		}
 		pc := ProgCase{Src: entry, FromFile: true, Loaders: loaders, Ctx: &ct, Label: fmt.Sprintf("loaders=%d", nl)}
 		cases = append(cases, pc)
@@ -414,7 +422,9 @@ func c11Layouts(cfg Config, res *Result) {
 		if two {
 			want = "G<" + out.String() + "|" + layoutOwnOut + ">"
 		}
-		ct := CtxTerm{Names: []string{"lz"}, Vals: []VT{vStr("part.tpl")}}
+		// the computed name arrives as a string, a pointer to one, or wrapped in a Value
+		lzv := []VT{vStr("part.tpl"), vStr("part.tpl"), vPtr(vStr("part.tpl")), vBoxed(vStr("part.tpl"), false), vBoxed(vStr("part.tpl"), true)}[rng.Intn(5)]
+		ct := CtxTerm{Names: []string{"lz"}, Vals: []VT{lzv}}
 		pc := ProgCase{Src: "/" + pd + "/page.tpl", FromFile: true, Loaders: []map[string]string{files}, Ctx: &ct, Label: "layouts"}
 		cases = append(cases, pc)
 		wants[pc.Req()] = want
@@ -507,4 +517,67 @@ func relTo(from, target string) (string, bool) {
 	}
 	ups := strings.Count(d, "/") + 1
 	return strings.Repeat("../", ups) + target, true
+}
+
+type c11Name string
+
+type c11Named struct {
+	Tpl  c11Name
+	Ptr  *string
+	Num  int
+	Strg fmt.Stringer
+}
+
+type c11Stringer struct{ s string }
+
+func (s c11Stringer) String() string { return s.s }
+
+// c11ComputedNames: the name a lazy include computes is the text of the value, whatever Go type
+// carries it — exactly the template the same characters written as a literal would name
+func c11ComputedNames(cfg Config, res *Result) {
+	files := map[string]string{"part.tpl": "PART", "7": "SEVEN", "d/part.tpl": "DPART", "d/page.tpl": "{% include lz %}"}
+	p := "part.tpl"
+	vals := []struct {
+		name string
+		v    any
+		lit  string
+	}{
+		{"named-string", c11Name("part.tpl"), "part.tpl"}, {"string-pointer", &p, "part.tpl"}, {"stringer", c11Stringer{"part.tpl"}, "part.tpl"},
+		{"stringer-pointer", &c11Stringer{"part.tpl"}, "part.tpl"}, {"int", 7, "7"}, {"int8", int8(7), "7"}, {"uint", uint(7), "7"},
+		{"value", pongo2.AsValue(c11Name("part.tpl")), "part.tpl"}, {"safe-value", pongo2.AsSafeValue("part.tpl"), "part.tpl"},
+	}
+	for _, v := range vals {
+		for _, shape := range []struct{ src, bind string }{
+			{"{% include lz %}", "var"}, {"{% include st.Tpl %}{% include st.Ptr %}{% include st.Strg %}{% include st.Num %}", "struct"},
+			{"{% for n in names %}{% include n %}{% endfor %}", "loop"}, {"{% with q=lz %}{% include q if_exists %}{% endwith %}", "with"},
+			{`{% include "d/page.tpl" %}`, "nested"},
+		} {
+			res.Cases++
+			res.DistinctNontrivial++
+			sink := &sharedLog{}
+			set := pongo2.NewSet("names", &memLoader{files: files, id: "0", sink: sink})
+			ctx := pongo2.Context{"lz": v.v, "names": []any{v.v, v.v}, "st": c11Named{Tpl: "part.tpl", Ptr: &p, Num: 7, Strg: c11Stringer{"part.tpl"}}}
+			want := map[string]string{"var": files[v.lit], "struct": "PARTPARTPARTSEVEN", "loop": files[v.lit] + files[v.lit], "with": files[v.lit], "nested": files["d/"+v.lit]}[shape.bind]
+			if shape.bind == "nested" && v.lit == "7" {
+				want = "" // no d/7: an error
+			}
+			got := func() (r execRes) {
+				defer func() {
+					if p := recover(); p != nil {
+						r.pan = fmt.Sprint(p)
+					}
+				}()
+				tpl, err := set.FromString(shape.src)
+				if err != nil {
+					r.err = err.Error()
+					return
+				}
+				return execOnce(tpl, ctx)
+			}()
+			bad := got.pan != "" || got.out != want || (got.err != "") != (shape.bind == "nested" && v.lit == "7")
+			if bad {
+				res.add(Finding{Kind: "oracle", Proj: "loaders", Sig: "c11-computed-name-" + v.name, Case: shape.src + " with the name held as " + v.name, Impl: got.String(), Model: "the template named by the text of the value: ok " + hxb(want)})
+			}
+		}
+	}
 }
